@@ -175,6 +175,9 @@ func checkC17(r *Run) {
 			"prescribed": toReal(w), "obtained": strings.Join(obs[i-1]["out"].([]string), "")})
 	}
 	r.addCov("traces_validated_against_impl", int64(len(obs)))
+	// "a trailing-slash redirect is only ever issued for request paths already in this form"
+	runServeDirtyStatic(r, rng)
+	runServeD2(r, rng, "")
 	r.assumption("multi-byte runes are opaque atoms for CleanPath (one placeholder character in the specification)")
 }
 
